@@ -823,7 +823,8 @@ def m1_maps(ctx):
         if isinstance(new_i, ast.Subscript) and is_imap(new_i.value, st):
             okp = True if au.src(new_i.slice) == au.src(old_i) else \
                 (False if isinstance(new_i.slice, ast.Name) and isinstance(old_i, ast.Name) and F.root(new_i.slice.id, st) != F.root(old_i.id, st)
-                 and not is_find(F.resolve(new_i.slice, st)) and not any(is_find(n_) for n_ in ast.walk(F.resolve(new_i.slice, st))) else None)
+                 and not is_find(F.resolve(new_i.slice, st)) and not any(is_find(n_) for n_ in ast.walk(F.resolve(new_i.slice, st)))
+                 and not isinstance(F.definition(new_i.slice.id, st), (ast.Subscript, ast.Call)) else None)
         elif isinstance(new_i, ast.Name):
             for a in au.ancestors(st):
                 if isinstance(a, ast.For) and isinstance(a.iter, ast.Call) and au.call_tail(a.iter) == "items" and is_imap(a.iter.func.value, a) \
@@ -933,6 +934,7 @@ def m1_maps(ctx):
               and F.root(c_.func.value.value.id, c_) == Droot]
     late_adds = [c_ for c_ in d_adds if any(isinstance(n_, (ast.Attribute, ast.Name)) and tk(n_, c_) == OF for a_ in au.ancestors(c_) if isinstance(a_, ast.For)
                                             for n_ in ast.walk(a_.iter)) or any(isinstance(n_, ast.Subscript) and tk(n_.value, c_) == OF for n_ in ast.walk(c_))]
+    late_adds = late_adds + [c_ for c_ in d_adds if c_.args and isinstance(F.resolve(c_.args[0], c_), (ast.Subscript, ast.Call))]
     find_at_record = find_at_record + late_adds
     if m_inner is None or any(p_ is None for p_ in passes) or (bad and find_at_record):
         ctx.undecided("C16-M1", site, "how the recorded copies are taken to the final vertex indices is not recognised", "")
@@ -1084,6 +1086,9 @@ def c1_cut_graph(ctx):
              and not (isinstance(v_, ast.Call) and au.call_tail(v_) == "set" and not v_.args)] + \
             [c_ for c_ in au.calls(fn) if isinstance(c_.func, ast.Attribute) and c_.func.attr in ("update", "union", "setdefault") and is_adj(_base(c_.func.value), c_)]:
         ctx.undecided(R, site, "the cut adjacency is filled in a way the rule does not follow", "")
+    elif len(adds) == 1 and len([a for a in au.ancestors(adds[0][2]) if isinstance(a, ast.For)]) == 1 and \
+            F.table_key([a for a in au.ancestors(adds[0][2]) if isinstance(a, ast.For)][0].iter, adds[0][2]) != "self.cut_edges":
+        ctx.undecided(R, site, "the cut adjacency is filled over a domain the rule does not recognise", "")
     elif len(adds) == 1 and len([a for a in au.ancestors(adds[0][2]) if isinstance(a, ast.For)]) == 1:
         _absent(ctx, F, fn, R, site, "the cut adjacency is filled in one direction only", "cut_adj must be symmetric: pruning and the cut graph walk it from both ends")
     else:
@@ -1497,7 +1502,8 @@ def k1_spanning_tree_no_features(ctx):
             n_border_stores = len([1 for st2_, tg2_, v2_, lp2_ in cand[D] if isinstance(tg2_.slice, ast.Tuple) and hr.same(tg2_.slice, tg.slice)])
             self_tests = [e_ for e_, p_ in bad if isinstance(e_, ast.Compare) and isinstance(e_.ops[0], (ast.In, ast.NotIn)) and
                           any(isinstance(n_, ast.Name) and F.root(n_.id, st) == D for n_ in ast.walk(e_.comparators[0]))]
-            if bad and (n_border_stores > 1 or self_tests):
+            flag_tests = [e_ for e_, p_ in bad if hr.flag_test(e_, p_) is not None]
+            if bad and (n_border_stores > 1 or self_tests or len(flag_tests) == len(bad)):
                 ctx.undecided(R, S(st), "the border candidate is recorded on several branches / under a test on the candidate table itself", "")
             elif not bad and not foreign and okk:
                 ctx.ok(R, S(st), "(BORDER, a) candidate for every singularity")
@@ -2077,7 +2083,10 @@ def a1_ownership(ctx):
         m = ctx.repo.module(modname)
         for q, cls in m.classes.items():
             bf = _borrowed_fields(cls)
-            bf = {k: v for k, v in bf.items() if k not in ("mesh",)}
+            other_bf = {k: v for k, v in bf.items() if k not in ("mesh",) and not any(w_ in k.lower() for w_ in ("forbid", "avoid", "excl", "skip", "block"))}
+            bf = {k: v for k, v in bf.items() if k not in ("mesh",) and k not in other_bf}
+            for fn_, node_, f_, how_ in _field_mutations(cls, other_bf):
+                ctx.undecided(R, ctx.site(modname, f"{q}.{fn_.name}", node_), f"{q}: a table handed to the constructor (not an exclusion set) is changed", "")
             if not bf:
                 continue
             n_cls += 1
@@ -2126,3 +2135,22 @@ def a1_ownership(ctx):
                       f"the cut data field `{recv.attr}` is changed ({how}) outside the cutter's own methods",
                       "cut_edges / cut_adj / ref_vertex describe the cuts that were made; changing them elsewhere makes the report disagree with the cut mesh",
                       note="cut data written by the cutter")
+
+
+
+# ----------------------------------------------------------------------- generic families (msa/rules/generic.py)
+_run_specific = run
+
+
+def run(ctx):
+    _run_specific(ctx)
+    from ..rules import generic
+    generic.apply(ctx, "C16", stale_modules=('processing.cutting', 'processing.paths'))
+
+
+def _generic_rule_texts():
+    from ..rules import generic
+    return generic.rule_texts("C16", stale=True)
+
+
+RULES.update(_generic_rule_texts())
